@@ -44,7 +44,7 @@ def plan(tier, seed):
         builds=[("opt", "c04"), ("opt", "texel"), ("asan", "texel")],
         nets=NETS,
         shards=shards,
-        replay_args=["--engine", build.binpath("opt", "texel"), "--nets", nets, "--classes", "all", "--solve-limit", 4, "--budget", 3000000, "--dtm-cache", DTM_CACHE],
+        replay_args=["--engine", build.binpath("opt", "texel"), "--nets", nets, "--classes", "all", "--solve-limit", "4", "--budget", "3000000", "--dtm-cache", DTM_CACHE],
         timeout=1500 if quick else 8 * 3600,
         rule=("one engine process per case: Hash {1,16} x Threads 1..4 x UseNullMove on/off x 4 synthetic nets, full strength; 1..6 groups of related "
               "positions searched one after the other without clearing the hash (a position alone / its child first / its child afterwards / two "
